@@ -135,9 +135,12 @@ func c14Run(c *mon.Ctx, csAny any) {
 		return
 	}
 
-	enc := new(big.Int).SetBytes(s.Encode())
-	if enc.Cmp(v) != 0 {
-		c.Inconclusive("Encode disagrees with the materialised value (a C07 matter); Bits is judged against Encode")
+	// Bits is judged against the canonical integer the scalar holds: the integer whose Montgomery form the oracle wrote
+	// into the limbs (resp. the target of the move). Encode shares its conversion routine with Bits, so it is not an
+	// independent witness; a disagreement between Encode and that integer is counted, and is C07's to report.
+	enc := new(big.Int).Set(v)
+	if got := new(big.Int).SetBytes(s.Encode()); got.Cmp(v) != 0 {
+		c.Count("encode-disagrees-with-held-value")
 	}
 
 	if enc.Bit(255) == 1 {
@@ -158,7 +161,7 @@ func c14Run(c *mon.Ctx, csAny any) {
 				hist = fmt.Sprintf(" after the object moved from %s to this value via %s", cs.Move.From, cs.Move.Via)
 			}
 
-			c.Fail(fmt.Sprintf("Bits()[%d] = %d but bit %d of Encode(s) is %d (s=%s)%s", i, bits[i], i, enc.Bit(i), cs.S, hist), fmt.Sprintf("bits-wrong-position-%d", i), nil)
+			c.Fail(fmt.Sprintf("Bits()[%d] = %d but bit %d of the value is %d (s=%s)%s", i, bits[i], i, enc.Bit(i), cs.S, hist), fmt.Sprintf("bits-wrong-position-%d", i), nil)
 			return
 		}
 
@@ -170,7 +173,7 @@ func c14Run(c *mon.Ctx, csAny any) {
 	}
 
 	if sum.Cmp(enc) != 0 {
-		c.Fail("sum of bits[i]*2^i differs from the encoded value", "bits-sum", nil)
+		c.Fail("sum of bits[i]*2^i differs from the value", "bits-sum", nil)
 	}
 
 	if s.S != before {
